@@ -210,12 +210,12 @@ func (s *sim) caseRewindFixed(rng *rand.Rand) {
 		a := h.AcknowledgedSeq()
 		s.doReplIgnore(0, a+2) // not the next one
 		s.doReplIgnore(0, a+1) // the next one
-		s.doReplReset(0, a+3)  // ResetReplicaIndex: consumed = a+2
-		s.doReplIgnore(0, a+3) // would be the next one, but not handed out again yet: nothing
+		s.doReplReset(0, a+2)  // ResetReplicaIndex: consumed = a+1 = the acknowledged position now
+		s.doReplIgnore(0, a+2) // the next one, but not handed out again yet: nothing
 		s.doReplAck(0, a+4)    // above the rewound consumed position: ignored
 		s.doReplConsume(0)
-		s.doReplIgnore(0, a+3)
-		s.doReplAck(0, a+1) // below the ack: ignored
+		s.doReplIgnore(0, a+2) // now it is
+		s.doReplAck(0, a)      // below the ack: ignored
 	}
 	s.doSync()
 	s.doGC(rng)
